@@ -203,6 +203,11 @@ func (g *gen) namedType(u string) string {
 // paths), sometimes a named type (generic path).
 func (g *gen) sigKind(label string) string {
 	k := g.basicKind(label)
+	if g.Chance(1, 3, label+"-common") {
+		// a third of the draws from the most common kinds, so that every (kind, kind)
+		// cell of the two-kind specialisation tables for them is hit in a quick run
+		k = g.OneOf(label+"-common-kind", "int", "string", "float64", "uint8")
+	}
 	if g.Chance(1, 8, label+"-named") {
 		g.Tag("sig:named-type")
 		return g.namedType(k)
@@ -215,6 +220,10 @@ func (g *gen) sigKind(label string) string {
 func (g *gen) funcSig(np, nr int) ([]string, []string) {
 	var ps, rs []string
 	for i := 0; i < np; i++ {
+		if i == 1 && g.Chance(1, 3, "same-kind") {
+			ps = append(ps, ps[0])
+			continue
+		}
 		ps = append(ps, g.sigKind("param-kind"))
 	}
 	for i := 0; i < nr; i++ {
